@@ -38,7 +38,7 @@ inline uint16_t get16(const uint8_t *p) { return (uint16_t)((p[0] << 8) | p[1]);
 inline uint32_t get32(const uint8_t *p) { return ((uint32_t)get16(p) << 16) | get16(p + 2); }
 
 // tweaks for deliberately damaged frames
-struct Damage { bool bad_hdcrc = false, bad_plcrc = false; };
+struct Damage { bool bad_hdcrc = false, bad_plcrc = false; int force_hdcrc = -1, force_plcrc = -1; };   // force_*: put this value into the checksum field (0x0000 and 0xffff are the values a shortcut might treat as "absent")
 
 // de-framed octets of a frame
 inline Bytes encode(const Frame &f, const Damage &dmg = Damage()) {
@@ -47,10 +47,12 @@ inline Bytes encode(const Frame &f, const Damage &dmg = Damage()) {
     put16(o, f.seq); put32(o, f.addr); put32(o, f.blocksize);
     uint16_t plcrc = ref::crc16_arc(0, f.payload.data(), f.payload.size());
     if (dmg.bad_plcrc) plcrc ^= 0x0101;
+    if (dmg.force_plcrc >= 0) plcrc = (uint16_t)dmg.force_plcrc;
     if (f.options & HDCRC) {
         uint16_t c = ref::crc16_arc(0, o.data(), 12);
         if (f.options & PLCRC) { uint8_t w[2] = {(uint8_t)(plcrc >> 8), (uint8_t)plcrc}; c = ref::crc16_arc(c, w, 2); }
         if (dmg.bad_hdcrc) c ^= 0x8001;
+        if (dmg.force_hdcrc >= 0) c = (uint16_t)dmg.force_hdcrc;
         put16(o, c);
     }
     if (f.options & PLCRC) put16(o, plcrc);
